@@ -45,6 +45,7 @@ func (o *Options) EnsureDefaults() *Options {
 	if o.MaxLogFileSize == 0 {
 		o.MaxLogFileSize = MaxLogFileSize
 	}
+	o.MaxLogFileSize = verifMaxLogFileSize(o.MaxLogFileSize)
 	if o.MaxManifestFileSize == 0 {
 		o.MaxManifestFileSize = MaxManifestFileSize
 	}
